@@ -5,7 +5,7 @@
 (* ids above everything returned before (also across compaction + restart), *)
 (* and config history ids are never stamped twice / never go backwards.     *)
 (* Events: ids(k, ids) | hist(ids = <<key, id>> pairs currently stored)     *)
-(*         | compact | restart | reset                                      *)
+(*         | compact | import | restart | reset                             *)
 (***************************************************************************)
 EXTENDS Naturals, Sequences, FiniteSets, TLC, Json, IOUtils
 
@@ -43,7 +43,8 @@ THist ==
           /\ hseen' = hseen \cup cur
           /\ hhi' = Max(newids \cup {hhi})
     /\ UNCHANGED <<seen, hi>>
-TOther == (IsEvent("compact") \/ (IsEvent("restart") /\ Rec[l].leader = "ok")) /\ UNCHANGED <<seen, hi, hseen, hhi>>
+\* (a data import re-stamps the imported history entries from a reserved section of ids; the next hist event judges them)
+TOther == (IsEvent("compact") \/ IsEvent("import") \/ (IsEvent("restart") /\ Rec[l].leader = "ok")) /\ UNCHANGED <<seen, hi, hseen, hhi>>
 
 TraceNext == TReset \/ TIds \/ THist \/ TOther
 TraceSpec == TraceInit /\ [][TraceNext]_vars
